@@ -167,6 +167,11 @@ def rule_errdisc(ctx):
                     good = good or (catches and rs_ok)
                 j += 1
                 yield ob(R, f, "%s:field[%d]@%d" % (q, int(sb.index.a[0]), j), good, "field %d of the split row is read %s" % (int(sb.index.a[0]), "under a row-numbered error discipline" if good else "with no column-count check and no handler for a short row (IndexError)"), node=sb.node)
+        if q == "io.load_patterns":
+            # an (onset, midi) pair needs both columns: field 1 of the split row is demanded explicitly
+            second = [sb for sb in s.by_kind("subscript") if sb.index.op == "const" and sb.index.a[0] == 1 and sb.base.op == "call" and call_name(sb.base) == ".split"]
+            counted = any(c.op == "cmp" and any(x.op == "call" and call_name(x) == "builtins.len" and x.a[1][0].op == "call" and call_name(x.a[1][0]) == ".split" for x in tm.walk(c)) for r in raises for c, _ in symeval.pc_conds(r.pc))
+            yield ob(R, f, "io.load_patterns:pair-needs-two-fields", bool(second) or counted, "the pair is built from fields [0] and [1] of the row (a one-column row fails and is reported)" if second or counted else "the pair no longer demands a second column (no read of field 1, no column count test): a one-column row is silently accepted as a 1-tuple")
         # column-count check in load_delimited
         if q == "io.load_delimited":
             cc = [r for r in raises if any(c.op == "cmp" and c.a[0] == "!=" and p for c, p in symeval.pc_conds(r.pc)[-1:])]
@@ -312,6 +317,11 @@ def rule_validatortotal(ctx):
             o.rule = R
             yield o
     for o in c14.rule_totallookup(ctx):
+        if o.construct.split(":")[0] in targets:
+            o.rule = R
+            yield o
+    # the documented checks themselves (C14.FACETS) of the validators io.py turns into warnings
+    for o in c14.rule_facets(ctx):
         if o.construct.split(":")[0] in targets:
             o.rule = R
             yield o
